@@ -23,7 +23,7 @@ Theorem C09_step :
   forall dbg it l c, col_sim it l ->
   exists y s' q', icall_step dbg (SCol it) c = Ok (y, s') /\
                   ideal_call (QCells l) c = (y, q') /\ st_sim s' q'.
-Proof. intros dbg it l c H. exact (step_sim dbg (SCol it) (QCells l) c H). Qed.
+Proof. intros dbg it l c H. exact (step_sim dbg (SCol it) (QCells l) c H (call_ok_not_cells (SCol it) c eq_refl)). Qed.
 Print Assumptions C09_step.
 
 Theorem C09_history :
@@ -31,7 +31,7 @@ Theorem C09_history :
   exists o s' q' b',
     icalls dbg mutable k (SCol it) calls b = Ok (o, s', b') /\
     ideal_calls mutable k (QCells l) calls b = (o, q', b') /\ st_sim s' q'.
-Proof. intros dbg mu calls k it l b H. exact (history_sim dbg mu calls k (SCol it) (QCells l) b H). Qed.
+Proof. intros dbg mu calls k it l b H. exact (history_sim dbg mu calls k (SCol it) (QCells l) b H (calls_ok_not_cells (SCol it) calls eq_refl)). Qed.
 Print Assumptions C09_history.
 
 Theorem C09_terminal :
